@@ -28,7 +28,7 @@ THEOREMS = [
     # the character level: the Lexer GENERATED from the current source (Gen/AlgoAscLex.lean) = the hand-written lexer model, on every text
     # (Refine/AscLex.lean), and text -> generated lexer -> generated parser -> generated walk = Asc.convert
     "C15.generated_lex_eq_model", "C15.generated_lexer_raises_iff_bad", "C15.generated_lex_noBad", "C15.generated_next_eq_model",
-    "C15.model_lex_is_iterated_step", "C15.generated_text_convert_eq_model",
+    "C15.model_lex_is_iterated_step", "C15.generated_text_convert_eq_model", "C15.generated_text_convert_bad_partial",
     "RefineAscLex.read_char_mk", "RefineAscLex.while1_loop", "RefineAscLex.while2_loop", "RefineAscLex.read_word_mk",
     "RefineAscLex.read_line_mk", "RefineAscLex.lex_loop", "RefineAscLex.init_mk",
 ]
